@@ -5,10 +5,11 @@ use crate::{
         Namespace,
         field::as_field_name,
         helpers::{write_check_restrictions_footer, write_check_restrictions_header},
+        structures::xml_name_to_rust_name,
     },
     reader::WriteXml,
 };
-use inflector::cases::{pascalcase::to_pascal_case, snakecase::to_snake_case};
+use inflector::cases::snakecase::to_snake_case;
 use reqwest::Url;
 use std::{io, rc::Rc};
 
@@ -21,7 +22,7 @@ where
             writeln!(writer, "\n/* {operation_name} */\n")?;
 
             // input
-            let operation_name = to_pascal_case(operation_name);
+            let operation_name = xml_name_to_rust_name(operation_name);
             let envelope_name = format!("{operation_name}InputEnvelope");
             let soap_operation = &operation.input;
             write_soap_operation(writer, &envelope_name, soap_operation, &self.target_namespaces)?;
@@ -120,7 +121,7 @@ where
             // the header entry is the element the part refers to: it goes on the wire under the
             // element's name, and its type is declared under the PascalCase name
             let xml_name = header.rust_type.xml_name().ok_or(WriterError::InvalidReference)?;
-            let rust_type = to_pascal_case(xml_name);
+            let rust_type = xml_name_to_rust_name(xml_name);
 
             if let Some(namespace) = header.in_namespace.as_ref() {
                 let abbreviation = namespace.abbreviation.as_str();
@@ -157,7 +158,7 @@ where
 
     let xml_name = soap_operation.body.rust_type.xml_name().ok_or(WriterError::InvalidReference)?;
     let body_field_name = as_field_name(&to_snake_case(xml_name));
-    let body = to_pascal_case(xml_name);
+    let body = xml_name_to_rust_name(xml_name);
 
     writeln!(writer, "#[derive(Debug, Default, YaSerialize, YaDeserialize)]")?;
 
